@@ -22,6 +22,10 @@ def template(name, k1, k2, k3):
         return [{k1: {k2: {k3: {"leaf": 1}}}, "tail": [{"leaf2": "1.5"}]}]
     if name == "optional_pseudo":
         return [{k1: "12", k2: [{"n": "1.5", k3: "true"}]}, {k2: []}]
+    if name == "deep_sole_import":
+        # three levels; the first sibling's grandchild is the only user of Dict/Any/Optional/Literal; the last sibling needs no import
+        return [{k1: {"mid": {"extra": {}, "opt": None, "lit": "abc", k3: 1}, "m": 1}, k2: {"plainint": 1}, "zlast": {"n": 2}},
+                {k1: {"mid": {"extra": {}, "opt": None, "lit": "xyz", k3: 2}, "m": 2}, k2: {"plainint": 2}, "zlast": {"n": 3}}]
     if name == "odd_string_values":       # string values (future Literal members) with control characters, quotes, backslashes
         return [{k1: "line\r\nend", k2: 'q"uote\\', k3: "tab\tand\x0bvt"}, {k1: "plain", k2: "\u2028sep", k3: "nul\x00byte"}]
     if name == "recursive":
@@ -29,7 +33,7 @@ def template(name, k1, k2, k3):
     raise ValueError(name)
 
 
-TEMPLATES_QUICK = ["flat_scalars", "nested_object", "list_of_objects", "two_similar_children", "odd_string_values"]
+TEMPLATES_QUICK = ["flat_scalars", "nested_object", "list_of_objects", "two_similar_children", "odd_string_values", "deep_sole_import"]
 TEMPLATES_FULL = TEMPLATES_QUICK + ["deep_chain", "optional_pseudo", "recursive"]
 
 
@@ -44,6 +48,9 @@ def choose_program(ch, params):
     elif styled == "k3":
         k3 = ch.choose("key(k3)", pool, shard=True)
         k1, k2 = "alpha", "beta"
+    elif styled == "k1":
+        k1 = ch.choose("key(k1)", pool, shard=True)
+        k2, k3 = "beta", "value"
     else:
         k1, k2, k3 = ch.choose("keys(k1,k2,k3)", [(a, b, c) for a in pool for b in pool for c in pool if len({a, b, c}) == 3], shard=True)
     tname = ch.choose("template", templates)
